@@ -166,6 +166,17 @@ class PathCore:
     def fresh_const(self, base: str, sort):
         return z3.Const(self.fresh_name(base), sort)
 
+    def new_object(self, sort: str, base: str):
+        """a freshly allocated heap object: non-null and distinct from every object
+        allocated earlier on this path"""
+        t = self.fresh_const(base, ref_sort(sort))
+        prev = self.ghost.setdefault("allocated", {}).setdefault(sort, [])
+        self.assume(t != null_of(sort))
+        for p in prev:
+            self.assume(t != p)
+        prev.append(t)
+        return VRef(sort, t)
+
     def assume(self, f):
         if isinstance(f, bool):
             f = z3.BoolVal(f)
@@ -244,7 +255,26 @@ class PathCore:
     def read_field(self, obj: VRef, field: str) -> V:
         t = self.world.field_type(obj.sort, field)
         arrs = self.heap_arrays(obj.sort, field)
-        return unpack(t, [z3.Select(a, obj.term) for a in arrs])
+        v = unpack(t, [z3.Select(a, obj.term) for a in arrs])
+        self.assume_enum_members(v)
+        return v
+
+    def assume_enum_members(self, v):
+        """an enum-typed value is one of the enum's members (type invariant)"""
+        if isinstance(v, VEnum):
+            codes = sorted(set(self.world.enums[v.enum]["members"].values()))
+            f = z3.Or([v.term == c for c in codes])
+            self.pc.append(f)
+            self.feas.add(f)
+        elif isinstance(v, VOpt):
+            if isinstance(v.val, VEnum):
+                codes = sorted(set(self.world.enums[v.val.enum]["members"].values()))
+                f = z3.Or([v.isnone] + [v.val.term == c for c in codes])
+                self.pc.append(f)
+                self.feas.add(f)
+        elif isinstance(v, VTuple):
+            for x in v.items:
+                self.assume_enum_members(x)
 
     def write_field(self, obj: VRef, field: str, v: V):
         t = self.world.field_type(obj.sort, field)
